@@ -1,0 +1,81 @@
+//go:build verif
+
+package discover
+
+// Thin exported wrappers around unexported discovery functions, compiled only
+// with the build tag "verif". They let the runtime monitors under /verif feed
+// datagrams to the genuine packet decoder and to a genuine udp instance that
+// runs over an in-memory connection. No logic lives here.
+
+import (
+	"crypto/ecdsa"
+	"net"
+
+	"github.com/ethereum/go-ethereum/rlp"
+)
+
+// ConnForVerif is the (unexported) conn interface of the udp transport.
+type ConnForVerif interface {
+	ReadFromUDP(b []byte) (n int, addr *net.UDPAddr, err error)
+	WriteToUDP(b []byte, addr *net.UDPAddr) (n int, err error)
+	Close() error
+	LocalAddr() net.Addr
+}
+
+// UDPForVerif is a handle on a genuine udp transport.
+type UDPForVerif struct{ t *udp }
+
+// NewUDPForVerif wraps newUDP (no NAT): it starts the genuine loop and
+// readLoop goroutines on the given connection.
+func NewUDPForVerif(priv *ecdsa.PrivateKey, c ConnForVerif, nodeDBPath string) (*Table, *UDPForVerif) {
+	tab, t := newUDP(priv, c, nil, nodeDBPath)
+	return tab, &UDPForVerif{t}
+}
+
+// HandlePacket wraps (*udp).handlePacket.
+func (u *UDPForVerif) HandlePacket(from *net.UDPAddr, buf []byte) error {
+	return u.t.handlePacket(from, buf)
+}
+
+// Bonded reports whether the node database holds the given id (what findnode checks).
+func (u *UDPForVerif) Bonded(id NodeID) bool { return u.t.db.node(id) != nil }
+
+// DecodePacketForVerif wraps decodePacket. The decoded request (an unexported
+// type) is returned as its packet type byte and its canonical RLP re-encoding.
+func DecodePacketForVerif(buf []byte) (ptype byte, reenc []byte, fromID NodeID, hash []byte, err error) {
+	req, fromID, hash, err := decodePacket(buf)
+	if err != nil {
+		return 0, nil, fromID, hash, err
+	}
+	switch req.(type) {
+	case *ping:
+		ptype = pingPacket
+	case *pong:
+		ptype = pongPacket
+	case *findnode:
+		ptype = findnodePacket
+	case *neighbors:
+		ptype = neighborsPacket
+	}
+	reenc, rerr := rlp.EncodeToBytes(req)
+	if rerr != nil {
+		reenc = nil
+	}
+	return ptype, reenc, fromID, hash, nil
+}
+
+// EncodePacketForVerif wraps encodePacket for an already RLP-encodable request value.
+func EncodePacketForVerif(priv *ecdsa.PrivateKey, ptype byte, req interface{}) ([]byte, error) {
+	return encodePacket(priv, ptype, req)
+}
+
+// Wire constants the monitors need.
+const (
+	MacSizeForVerif    = macSize
+	SigSizeForVerif    = sigSize
+	HeadSizeForVerif   = headSize
+	BucketSizeForVerif = bucketSize
+)
+
+// MaxNeighborsForVerif is the per-datagram neighbors limit computed at init.
+func MaxNeighborsForVerif() int { return maxNeighbors }
